@@ -357,7 +357,7 @@ func (m *MonC10) PostTx(ctx sdk.Context, t *ExecTx) {
 				h, err := app.PerpetualKeeper.GetMTPHealth(cc, mtp, ammPool, DenomUSDC)
 				safety := app.PerpetualKeeper.GetParams(cc).SafetyFactor
 				if err == nil && h.LTE(safety) && x.Leverage.IsPositive() {
-					s.Violate("C10", "perp_open_unhealthy", step, "open by %s succeeded but position %d has health %s <= safety factor %s", shortAddr(x.Creator), mtp.Id, h, safety)
+					s.Violate("C10", "perp_open_unhealthy", step, "open by %s succeeded but position %d (%s, custody %s%s, liabilities %s%s, collateral %s%s) has health %s <= safety factor %s in the post-state (health recorded by the handler: %s)", shortAddr(x.Creator), mtp.Id, mtp.Position, mtp.Custody, mtp.CustodyAsset, mtp.Liabilities, mtp.LiabilitiesAsset, mtp.Collateral, mtp.CollateralAsset, h, safety, mtp.MtpHealth)
 				}
 				s.Stats.Probe("open_health_checked")
 			}
